@@ -1,5 +1,6 @@
 import DimodModel.Enumerate
 import DimodModel.EnumPost
+import DimodModel.EnumComposite
 import DimodModel.Anneal
 import DimodModel.Wire
 open Wire Enum
@@ -27,6 +28,13 @@ open Wire Enum
     rnd <spin> <num_reads> ; labels ; draws ; lin ; quad ; off → `ok rows` / `err` (RandomSampler over explicit index draws `d.d.d`)
     hising ; h ; J(poly)                       → polynomial, canonical (`BinaryPolynomial.from_hising`)
     expand ; reds+ ; init                      → `l=v,…` sorted (`expand_initial_state`); reds+ = `u&v&p[&aux&cu&cv&cp],…`
+    pnorm <spin> <bias_range> <poly_range|-> ; ignored ; poly → `ok rows` / `err` (PolyScaleComposite, scalar=None, exact child;
+                                                 a range is `r` or `lo:hi`)
+    pfull <spin> <exact|null> <some|none> ; poly ; fixed → rows (PolyFixedVariableComposite.sample_poly, every branch; child =
+                                                 ExactPolySolver or a sampler without rows)
+    tinit <n> <byEnergy> <aggregate> ; rows    → `err` / `ok rows` (Truncate / PolyTruncate composite incl. `__init__`)
+    xsolve <spin> poly ; vars ; poly  /  xsolve <spin> bqm ; vars ; lin ; quad ; off → rows IN ORDER (`vars` = `list(problem.variables)`, the gray-code column order; each row printed by sorted label)
+                                                 (ExactPolySolver.sample_poly / ExactSolver.sample as coded: `exactRows`)
     poly   = `bias@l&l&l|…`   fixed/lin = `l=v,…`   quad = `u&v=b,…`   reds = `u&v&p,…` -/
 
 def sepBy (c : String) (s : String) : List String := if s = "" ∨ s = "-" then [] else s.splitOn c
@@ -222,6 +230,51 @@ def answer (line : String) : String :=
     match parsePoly (field parts 1), parseAssign (field parts 2) with
     | some p, some fx => showRows (polyFixedSample (sk = "1") (exactPoly (spin = "1")) p fx)
     | _, _ => "bad"
+  | ["pnorm", spin, br, pr] =>
+    let parseRange? (t : String) : Option RangeArg :=
+      match t.splitOn ":" with
+      | [a] => (parseRat? a).map RangeArg.num
+      | [a, b] => do let a ← parseRat? a; let b ← parseRat? b; pure (RangeArg.pair a b)
+      | _ => none
+    match parseRange? br, (sepBy "|" (field parts 1)).mapM (fun t => parseLabels t "&"), parsePoly (field parts 2) with
+    | some br, some ign, some p =>
+      let pr : Option (Option RangeArg) := if pr = "-" then some none else (parseRange? pr).map some
+      match pr with
+      | none => "bad"
+      | some pr =>
+        match polyNormalizeSample (exactPoly (spin = "1")) p br pr ign with
+        | some rows => "ok " ++ showRows rows
+        | none => "err"
+    | _, _, _ => "bad"
+  | ["pfull", spin, ch, fx] =>
+    match parsePoly (field parts 1), parseAssign (field parts 2) with
+    | some p, some fixed =>
+      let child : Poly → List Row := if ch = "exact" then exactPoly (spin = "1") else fun _ => []
+      showRows (polyFixedFull child p (if fx = "some" then some fixed else none))
+    | _, _ => "bad"
+  | ["tinit", n, be, agg] =>
+    match n.toInt?, (sepBy "|" (field parts 1)).mapM (fun r => match r.splitOn "@" with
+        | [vs, e, o] => do let vs ← (sepBy "." vs).mapM parseRat?; let e ← parseRat? e; let o ← o.toNat?; pure (ORow.mk vs e o)
+        | _ => none) with
+    | some n, some rows =>
+      match truncateInit n (be = "1") (agg = "1") rows with
+      | .error _ => "err"
+      | .ok out => "ok " ++ String.intercalate "|" (out.map fun r =>
+          String.intercalate "." (r.vals.map showRat) ++ "@" ++ showRat r.energy ++ "@" ++ toString r.occ)
+    | _, _ => "bad"
+  | ["xsolve", spin, kind] =>
+    let showOrdered (rs : List Row) : String := String.intercalate "|" (rs.map showRow)
+    match parseLabels (field parts 1) "," with
+    | some vars =>
+      if kind = "poly" then
+        match parsePoly (field parts 2) with
+        | some p => showOrdered (exactPolySolver (spin = "1") vars p)
+        | none => "bad"
+      else
+        match parseAssign (field parts 2), parseQuad (field parts 3), parseRat? (field parts 4) with
+        | some lin, some quad, some off => showOrdered (exactBqmSolver vars ⟨spin = "1", lin, quad, off⟩)
+        | _, _, _ => "bad"
+    | none => "bad"
   | _ => "bad-line"
 
 partial def loop (h : IO.FS.Stream) : IO Unit := do
